@@ -32,8 +32,9 @@ REQUIRED = {
     "mon:no-deadlock": 500,
 }
 ASSUMPTIONS = [
-    "workers raising non-Exception errors in their own thread are out of scope (the suites' contract "
-    "is `except Exception`)",
+    "a worker whose run() lets a non-Exception BaseException escape (sys.exit() in a test) need not be "
+    "reported as a broken runner (the suites' contract is `except Exception`); its earlier events, the "
+    "other workers and the termination of run() are still demanded",
     "make_tests never yields the same object twice (the suites key their thread table by it)",
     "under the baton scheduler code between two yield points runs atomically",
 ]
@@ -41,6 +42,17 @@ ASSUMPTIONS = [
 
 class Marker(Exception):
     pass
+
+
+class FalsyRunnerError(Exception):
+    """An exception object that is falsy (an aggregate error raised with an empty list, say)."""
+
+    def __len__(self):
+        return 0
+
+
+class WorkerExit(BaseException):
+    """What a worker's run() lets escape when a test calls sys.exit() / is interrupted: not an Exception."""
 
 
 class Worker:
@@ -63,6 +75,8 @@ class Worker:
                 return
             if self.spec.get("raise_at") == j:
                 self._about_to_raise(result)
+                if self.spec.get("falsy"):
+                    raise FalsyRunnerError("worker %d broke" % self.i)
                 raise RuntimeError("worker %d broke" % self.i)
             if self.kind == "stream" and self.spec.get("direct") and j % 2:
                 # a worker forwarding complete event dicts passes every field, timestamp=None included
@@ -78,9 +92,15 @@ class Worker:
                 self.runlog.append((self.i, "stopped-before", n))
                 return
             self._about_to_raise(result)
+            if self.spec.get("falsy"):
+                raise FalsyRunnerError("worker %d broke at the end" % self.i)
             raise RuntimeError("worker %d broke at the end" % self.i)
 
     def _about_to_raise(self, result):
+        if self.spec.get("raise_base"):
+            # not an Exception: whether it is reported is not specified, but the suite's run() must still
+            # return once every worker is done
+            raise WorkerExit("worker %d exits" % self.i)
         if self.spec.get("stop_first"):
             result.stop()      # e.g. the worker's own fail-fast logic, just before its runner breaks
         self.runlog.append((self.i, "raised", None, None, None))
@@ -181,6 +201,21 @@ def execute(case, chooser):
     testtools.ThreadsafeForwardingResult = RecTFR
     testtools.ExtendedToStreamDecorator = RecE2S
     try:
+        if abort and abort[0] == "make_tests_call":
+            # make_tests is an ordinary function that fails before returning anything (first run only)
+            gen_cts, gen_stream = make_tests_cts, make_tests_stream
+
+            def make_tests_cts(suite):      # noqa: F811
+                if not gen[0]:
+                    sch.abort_snapshot = snap_finished(sch, runlog)
+                    raise Marker("make_tests() itself fails")
+                return gen_cts(suite)
+
+            def make_tests_stream():        # noqa: F811
+                if not gen[0]:
+                    sch.abort_snapshot = snap_finished(sch, runlog)
+                    raise Marker("make_tests() itself fails")
+                return gen_stream()
         if kind == "cts":
             target = recorders.ExtRecorder(log)
             wrap = None
@@ -361,6 +396,9 @@ def check(ctx, case, sch, log, runlog, created, exc, yielded, shim, target, deta
                     want += [(tid, "inprogress"), (tid, "success")]
                 else:
                     want += [(tid, "inprogress"), (tid, ["success", "fail", "skip"][(i + j) % 3])]
+            if spec.get("raise_base"):
+                r = None      # a BaseException leaving the worker: nothing demanded beyond its earlier events
+                mine = [m for m in mine if not m[0].startswith("broken-runner")]
             if r is not None:
                 want += [("broken-runner-'%s'" % code_i, "inprogress"), ("broken-runner-'%s'" % code_i, "fail")]
             if shared and r is not None:
@@ -370,7 +408,7 @@ def check(ctx, case, sch, log, runlog, created, exc, yielded, shim, target, deta
             if r is not None and shared:
                 n_fail = sum(1 for p in ev if p["test_id"] == "broken-runner-'%s'" % code_i
                              and p["test_status"] == "fail")
-                n_raise = sum(1 for sp in specs if sp.get("raise_at") is not None)
+                n_raise = sum(1 for sp in specs if sp.get("raise_at") is not None and not sp.get("raise_base"))
                 ctx.check(n_fail == n_raise, "broken-runner.reported",
                           lambda: {"reported": n_fail, "raising workers": n_raise, **detail()})
             elif r is not None:
@@ -464,6 +502,27 @@ def run(ctx):
                     ctx.execute("schedule", {"kind": kind, "workers": [{"tests": 2}, {"tests": 2}], "abort": ab,
                                              "rerun": True, "mode": "random", "rseed": rng.randrange(10 ** 9),
                                              "p": rng.choice([0.1, 0.5, 0.9])})
+    for kind in ("cts", "stream"):
+        for rerun in (False, True):
+            if ctx.mine():
+                n += 1
+                ctx.execute("schedule", {"kind": kind, "workers": [{"tests": 1}, {"tests": 1}], "abort": ["make_tests_call"],
+                                         "rerun": rerun, "mode": "random", "rseed": rng.randrange(10 ** 9), "p": 0.5})
+        for at in (0, 1, 2):
+            for rep in range(2 if ctx.quick else 10):
+                if ctx.mine():
+                    n += 1
+                    ctx.execute("schedule", {"kind": kind, "workers": [{"tests": 2, "raise_at": at, "falsy": True}, {"tests": 2}],
+                                             "mode": "random", "rseed": rng.randrange(10 ** 9), "p": 0.5})
+    # a worker whose run() lets a BaseException (sys.exit in a test) escape: run() still returns
+    for kind in ("cts", "stream"):
+        for at in (0, 1, 2):
+            for rep in range(3 if ctx.quick else 20):
+                if ctx.mine():
+                    n += 1
+                    ctx.execute("schedule", {"kind": kind, "workers": [{"tests": 2, "raise_at": at, "raise_base": True},
+                                                                       {"tests": 2}, {"tests": 1}],
+                                             "mode": "random", "rseed": rng.randrange(10 ** 9), "p": 0.5})
     # a worker that stops its result (own fail-fast) and then breaks is still reported
     for kind in ("cts", "stream"):
         for at in (0, 1, 2):
@@ -487,6 +546,10 @@ def run(ctx):
                 w["raise_at"] = rng.randint(0, w["tests"])
                 if rng.random() < 0.4:
                     w["stop_first"] = True
+                elif rng.random() < 0.25:
+                    w["raise_base"] = True
+                elif rng.random() < 0.3:
+                    w["falsy"] = True
             if kind == "stream" and rng.random() < 0.4:
                 w["direct"] = True
             workers.append(w)
@@ -500,7 +563,9 @@ def run(ctx):
                 w.pop("raise_at", None)  # the fault must hit a worker's test, not a broken-runner report
         elif rng.random() < 0.3:
             r = rng.random()
-            if r < 0.3:
+            if r < 0.05:
+                case["abort"] = ["make_tests_call"]
+            elif r < 0.3:
                 case["abort"] = ["make_tests", rng.randint(0, len(workers) - 1)]
             elif r < 0.6:
                 case["abort"] = ["interrupt", rng.randint(1, 20)]
